@@ -184,29 +184,39 @@ func (w *W) RunProbe(pkgs []GenPkg, sessions []ProbeSession, stubTag bool) ([][]
 	if len(sessions) == 0 {
 		return nil, nil
 	}
-	var in bytes.Buffer
-	enc := json.NewEncoder(&in)
+	var input bytes.Buffer
+	enc := json.NewEncoder(&input)
 	for _, s := range sessions {
 		enc.Encode(s)
 	}
-	run := exec.Command(bin)
-	run.Stdin = &in
+	// the probe normally answers within a second; 300 s of silence is taken for a hang only when it happens three
+	// times in a row (a machine that is short of memory or CPU for a while does not make a verdict)
 	var stdout, stderr bytes.Buffer
-	run.Stdout = &stdout
-	run.Stderr = &stderr
-	if err := run.Start(); err != nil {
-		return nil, &ProbeError{"run", err.Error()}
-	}
-	done := make(chan error, 1)
-	go func() { done <- run.Wait() }()
 	var werr error
 	timedOut := false
-	select {
-	case werr = <-done:
-	case <-time.After(300 * time.Second):
-		run.Process.Kill()
-		<-done
-		timedOut = true
+	for attempt := 0; attempt < 3; attempt++ {
+		stdout.Reset()
+		stderr.Reset()
+		run := exec.Command(bin)
+		run.Stdin = bytes.NewReader(input.Bytes())
+		run.Stdout = &stdout
+		run.Stderr = &stderr
+		if err := run.Start(); err != nil {
+			return nil, &ProbeError{"run", err.Error()}
+		}
+		done := make(chan error, 1)
+		go func() { done <- run.Wait() }()
+		timedOut = false
+		select {
+		case werr = <-done:
+		case <-time.After(300 * time.Second):
+			run.Process.Kill()
+			<-done
+			timedOut = true
+		}
+		if !timedOut {
+			break
+		}
 	}
 	var res [][]ProbeResult
 	sc := bufio.NewScanner(&stdout)
@@ -219,7 +229,7 @@ func (w *W) RunProbe(pkgs []GenPkg, sessions []ProbeSession, stubTag bool) ([][]
 		res = append(res, r)
 	}
 	if timedOut {
-		return res, &ProbeError{"hang", fmt.Sprintf("probe did not finish within 300s; %d of %d sessions completed\n%s", len(res), len(sessions), tail(stderr.String(), 4000))}
+		return res, &ProbeError{"hang", fmt.Sprintf("probe did not finish within 300s in three attempts; %d of %d sessions completed\n%s", len(res), len(sessions), tail(stderr.String(), 4000))}
 	}
 	if werr != nil || len(res) != len(sessions) {
 		return res, &ProbeError{"run", fmt.Sprintf("probe exited abnormally (%v) after %d of %d sessions\n%s", werr, len(res), len(sessions), tail(stderr.String(), 6000))}
